@@ -22,14 +22,15 @@ LEAN_TARGETS = ["Asynkit.Props.C18", "Asynkit.Lemmas.GenEqC18"]
 PROPS_FILES = ["Asynkit/Props/C18.lean", "Asynkit/Lemmas/GenEqC18.lean"]
 DRIVERS = []
 TRUSTED = [
-    "Lean 4.33 kernel; axioms ⊆ {propext, Classical.choice, Quot.sound} (audited per theorem each run)",
-    "Model/Threads.lean: two threads, a lock, operations with an arbitrary number of internal switch points; "
-    "the assumption that only the lock holder touches the queue between acquire and release is discharged by "
-    "the translator's lock-coverage table (every PosPriorityQueue method that touches _pq runs under `with self._lock`), "
-    "regenerated from the source on every run and checked by `decide`",
-    "collections.deque append/popleft/remove/insert/rotate and list(deque) are atomic under the GIL (C code that "
-    "runs no Python-level comparison for Handle objects); threading.RLock provides mutual exclusion",
-    "thread switches are *forced* at every line boundary of asynkit code by the harness; where the interpreter "
+    'Lean 4.33 kernel; axioms ⊆ {propext, Classical.choice, Quot.sound} (audited per theorem each run)',
+    'hand-written: Model/Threads.lean (two threads, a lock, operations with an arbitrary number of internal '
+    'switch points), with no correspondence driver; its assumption that only the lock holder touches the queue '
+    'between acquire and release is discharged by translation: the lock-coverage table of PosPriorityQueue and '
+    'the list of deque primitives used by the ready-queue helpers are regenerated from the source on every run '
+    '(translator/py2lean.py -> Gen/LockCoverage.lean) and checked by `decide` (Lemmas/GenEqC18.lean, 3 theorems)',
+    'collections.deque append/popleft/remove/insert/rotate and list(deque) are atomic under the GIL (C code that '
+    'runs no Python-level comparison for Handle objects); threading.RLock provides mutual exclusion',
+    'thread switches are *forced* at every line boundary of asynkit code by the harness; where the interpreter '
     "really switches is not modelled (partial with respect to the GIL's decisions); corroborated by a stress run",
 ]
 ASSUMPTIONS = ["foreign threads only use call_soon_threadsafe (asyncio's contract)"]
